@@ -1075,9 +1075,9 @@ def _run_convert(cfg) -> Dict[str, Any]:
             try:
                 wv = jm.JSONRPCMessageWrapper(m)
                 forms = {"wrapper.model_dump(exclude_none=True)": jnorm(wv.model_dump(exclude_none=True)),
-                         "wrapper.model_dump_json(exclude_none=True)": json.loads(wv.model_dump_json(exclude_none=True))}
+                         "wrapper.model_dump_json(exclude_none=True)": json.loads(wv.model_dump_json(exclude_none=True)),
+                         "wrapper.model_dump_json()": json.loads(wv.model_dump_json())}
                 view = {k: getattr(wv, k) for k in ("id", "method", "params", "result", "error")}
-                default_form = json.loads(wv.model_dump_json())
             except Exception as e:  # noqa: BLE001
                 J.bad("converter-raised", f"JSONRPCMessageWrapper over the {carrier} message raised {type(e).__name__}: {str(e)[:100]}; {ctx}",
                       converter="wrapper")
@@ -1094,9 +1094,6 @@ def _run_convert(cfg) -> Dict[str, Any]:
                 if (want is _ABSENT) != (got_n is _ABSENT) or (want is not _ABSENT and not strict_eq(got_n, want)):
                     J.bad("payload-altered", f"wrapper.{k} is {_show(got_n)}, the message holds {_show(want)}; {carrier}; {ctx}",
                           form="wrapper-property", member=k, how=_diff_class(got_n, want))
-            # default dump (no exclude_none): recorded only - the library's serialisers always pass exclude_none=True
-            ok_default = classify(default_form)[0] == kind
-            J.count(f"wrapper.model_dump_json()-without-exclude_none/{carrier}/{kind}/" + ("valid" if ok_default else "INVALID(recorded)"))
     return {"outcome": "convert:" + "+".join(sorted(outs)), "violations": J.viol, "counters": J.cnt, "emitter": J.emitter,
             "wire_digest": J.h.hexdigest()}
 
@@ -1373,7 +1370,6 @@ def run(tier: str, only=None) -> core.Result:
     cov["messages_emitted_and_judged"] = cnt.get("emitted", 0)
     cov["serialised_forms_judged"] = cnt.get("forms_judged", 0)
     cov["by_kind"] = {k[5:]: v for k, v in cnt.items() if k.startswith("kind:")}
-    cov["wrapper_default_dump"] = {k: v for k, v in cnt.items() if k.startswith("wrapper.model_dump_json()")}
     cov["recorded_not_judged"] = {k: v for k, v in cnt.items()
                                   if "recorded" in k or k.startswith(("input-rejected", "handler-raised", "nothing-written",
                                                                         "request-not-parseable", "no-response", "error-with-null-id"))}
@@ -1399,7 +1395,7 @@ def run(tier: str, only=None) -> core.Result:
         "the lines the stdio client writes on its own: at 3 versions without batching, every batch of 1-2 members (request / response / error / bare object, "
         "a non-object in front) whose ids range over every JSON type (1.5, -0.5, true, false, null, [], [7], {}, {id:1}, strings, 0, 7, 2^64, absent) - every line "
         "written to the child must pass the envelope reference and the library's own parser. (f) JSONRPCMessage.to_specific_type / from_specific_type and "
-        "JSONRPCMessageWrapper (dump forms with exclude_none=True and the id/method/params/result/error properties) over both carriers x 5 ids (0, 2^64-1, empty string, digit string, non-ASCII) x method x every "
+        "JSONRPCMessageWrapper (model_dump(exclude_none=True), model_dump_json(exclude_none=True), the default model_dump_json() and the id/method/params/result/error properties) over both carriers x 5 ids (0, 2^64-1, empty string, digit string, non-ASCII) x method x every "
         "object as params / every value as result / error.data (depth<=2). "
         "(e) every function with a {'jsonrpc': ...} dict literal (AST walk) is driven or listed with a reason: BatchProcessor.process_message_data x 4 versions x 17 ids x "
         "every batch of 1..2 members over {request, notification, non-object} x handler behaviour {answers, silent, raises one of 13 exceptions incl. "
@@ -1426,7 +1422,8 @@ def run(tier: str, only=None) -> core.Result:
         "HTTP and SSE request bodies (model_dump(exclude_none=True) + httpx json=) are the first serialised form judged in (a)/(b); the POST itself is exercised by C11/C12",
         "from_specific_type on a response whose result is not an object raises (the unified class types result as Optional[Dict]): recorded as refused, not judged; "
         "when it converts, the conversion must be faithful",
-        "JSONRPCMessageWrapper.model_dump_json() WITHOUT exclude_none is recorded only (by_kind counters): the library's serialisers always pass exclude_none=True",
+        "JSONRPCMessageWrapper: its JSON forms (model_dump_json() with and without arguments) are emissions and are judged; the dict form model_dump() "
+        "without exclude_none is a Python-side view, not an emission",
         "a slice of every part is re-run with the library's logging enabled at DEBUG (parts named +debug-logging; not counted in the headline numbers)",
         "seeded deep JSON of the quantifier is replaced by the bounded-exhaustive depth-" + str(depth) + " enumeration",
     ]
